@@ -241,6 +241,11 @@ def run(ctx):
     res = ctx.go_driver("c14compile", "TestDriver", env={"VERIF_IN": ind, "C14_MINIMISE": 2 if q else 8}, timeout=1500 if q else 5000)
     ctx.absorb(res)
     st = res.get("stats") or {}
+    hard = [v for v in res.get("violations") or [] if (v.get("signature") or {}).get("part") != "dialect-probe"]
+    if hard:
+        # the compiler under test breaks programs of the claimed subset: the verdict stands on these violations
+        ctx.extra["refusals_by_reason"] = st.get("refusals_by_reason")
+        return
     if st.get("gen_type_errors", 0) > len(cases) // 50:
         raise vlib.Inconclusive("too many generated programs are rejected by the Go type checker: %d" % st["gen_type_errors"])
     if st.get("programs_compiled", 0) < len(cases) * 0.9:
